@@ -11,6 +11,7 @@ from vt.world import World, WSpec
 ID = 'C01'
 KIND = 'explorer'
 LEVEL = 'model_checking'
+LIVE = {'thorough': ['incr-decr-restart', 'exit3-respawn']}
 GRAPH = {'quick': 2, 'thorough': 3}
 BUDGET = {'quick': 150, 'thorough': 1500}
 RULE = ('breadth-first search over canonical quiescent daemon states; from every new state all bursts of '
